@@ -749,7 +749,7 @@ func (rr *HIP) parse(c *zlexer, o string) *ParseError {
 		return &ParseError{err: "bad HIP Hit", lex: l}
 	}
 	rr.Hit = l.token // This can not contain spaces, see RFC 5205 Section 6.
-	rr.HitLength = uint8(len(rr.Hit)) / 2
+	rr.HitLength = uint8(len(rr.Hit) / 2)
 
 	c.Next()        // zBlank
 	l, _ = c.Next() // zString
@@ -1069,7 +1069,7 @@ func (rr *NSEC3) parse(c *zlexer, o string) *ParseError {
 		return &ParseError{err: "bad NSEC3 Salt", lex: l}
 	}
 	if l.token != "-" {
-		rr.SaltLength = uint8(len(l.token)) / 2
+		rr.SaltLength = uint8(len(l.token) / 2)
 		rr.Salt = l.token
 	}
 
